@@ -157,6 +157,9 @@ func newEventFromUntrustedJSONV2(eventJSON []byte, roomVersion IRoomVersion) (PD
 	if err := checkID(res.eventFields.RoomID, "room", '!'); err != nil {
 		return nil, err
 	}
+	if err := checkValidRoomID(res.eventFields.RoomID); err != nil {
+		return nil, err
+	}
 
 	res.roomVersion = roomVersion.Version()
 
@@ -290,6 +293,9 @@ func newEventFromTrustedJSONV2(eventJSON []byte, redacted bool, roomVersion IRoo
 	if err := checkID(res.eventFields.RoomID, "room", '!'); err != nil {
 		return nil, err
 	}
+	if err := checkValidRoomID(res.eventFields.RoomID); err != nil {
+		return nil, err
+	}
 
 	res.roomVersion = roomVersion.Version()
 	res.redacted = redacted
@@ -304,6 +310,9 @@ func newEventFromTrustedJSONWithEventIDV2(eventID string, eventJSON []byte, reda
 	}
 
 	if err := checkID(res.eventFields.RoomID, "room", '!'); err != nil {
+		return nil, err
+	}
+	if err := checkValidRoomID(res.eventFields.RoomID); err != nil {
 		return nil, err
 	}
 
